@@ -149,6 +149,29 @@ def cell_errors():
             "/-- translated from `src/structs/error.rs`: `impl FromStr for CellErrorType` (text ↦ variant; anything else is an error) -/\n"
             "def cell_error_from_str : List (String × String) :=\n  [" + ", ".join(f"({lean_str(a)}, {lean_str(b)})" for a, b in f) + "]\n")
 
+def enum_table(path, rust, lean):
+    """`EnumTrait::get_value_string` arms `Self::V => "text"` and `FromStr::from_str` arms `"text" => Ok(Self::V)` /
+    `"text" => Self::V` of one enum: (variant, text) in arm order and (text, variant) in arm order."""
+    def f():
+        src = strip_comments(open(os.path.join(REPO, path)).read())
+        disp = fn_body(block_after(src, "impl EnumTrait for " + rust, "{", "}"), "get_value_string")
+        frm = fn_body(block_after(src, "impl FromStr for " + rust, "{", "}"), "from_str")
+        d = [(m.group(1), lit_value(m)) for m in re.finditer(r"Self::(\w+)\s*=>\s*" + STR + r"\s*,", disp)]
+        r = [(lit_value(m), m.group("v")) for m in re.finditer(STR + r"\s*=>\s*(?:Ok\s*\(\s*)?Self::(?P<v>\w+)\s*\)?\s*,", frm)]
+        if not d or not r or len(re.findall(r"=>", disp)) != len(d) or len(re.findall(r"=>", frm)) != len(r) + 1:
+            raise ValueError("match arms of an unknown form")
+        pairs = lambda l: "[" + ", ".join(f"({lean_str(a)}, {lean_str(b)})" for a, b in l) + "]"
+        return (f"/-- translated from `{path}`: `get_value_string` (variant ↦ text) and `from_str` (text ↦ variant; anything else is an error), arm order kept -/\n"
+                f"def {lean} : List (String × String) × List (String × String) :=\n  ({pairs(d)},\n   {pairs(r)})\n")
+    return f
+
+ENUMS = [("dv_type_table", "src/structs/data_validation_values.rs", "DataValidationValues"),
+         ("dv_operator_table", "src/structs/data_validation_operator_values.rs", "DataValidationOperatorValues"),
+         ("cf_type_table", "src/structs/conditional_format_values.rs", "ConditionalFormatValues"),
+         ("cf_operator_table", "src/structs/conditional_formatting_operator_values.rs", "ConditionalFormattingOperatorValues"),
+         ("time_period_table", "src/structs/time_period_values.rs", "TimePeriodValues"),
+         ("cfvo_type_table", "src/structs/conditional_format_value_object_values.rs", "ConditionalFormatValueObjectValues")]
+
 CHAR = r"'(?:[^'\\]|\\.|\\u\{[0-9a-fA-F]+\})'"
 
 def stmt_end(body, start):
@@ -373,7 +396,8 @@ VIEW_ITEMS += [("sheet_protection_read_table", attr_read_table("src/structs/shee
 
 ITEMS = [("builtin_format_codes", builtin_formats), ("formula_errors", formula_errors), ("date_format_replacements", date_tables),
          ("cell_error_display", cell_errors), ("write_start_tag_escape", writer_pipelines), ("unescape_text_normalise", reader_pipelines),
-         ("driver_shape", driver_shape)] + VIEW_ITEMS
+         ("driver_shape", driver_shape)] + VIEW_ITEMS + \
+        [(lean, enum_table(path, rust, lean)) for lean, path, rust in ENUMS]
 
 HEADER = ("/-\n  GENERATED by tools/extract_tables.py from the current source of /repo — do not edit.\n"
           "  Constant tables and escape / normalisation pipelines the hand model copies.\n-/\n"
